@@ -8,13 +8,17 @@ from .rtcommon import discr_switches, variant_target, is_true_edge, is_false_edg
 CLAIM = dict(
     level="other", engine="mirfacts", design="DESIGN.md §5 C02",
     technique="MIR path rules on Generator::call: exactly-once / must-pass-through of instruction construction sites, "
-              "guard dominance by variant / sig.indirect_params / async_, constant equality with wit-parser",
+              "guard dominance by variant / sig.indirect_params / async_, constant equality with wit-parser; "
+              "syntax-tree rules (capacity algebra, argument positions, task.return flattening arms)",
     text="Decides on the MIR of the shared generator that the flat-parameter limits equal the canonical ABI's and "
          "wit-parser's, that each direction of `call` constructs exactly one CallWasm / CallInterface and exactly one "
          "terminal Return or AsyncTaskReturn on every path (and nothing is emitted after it), that the caller-allocated "
          "parameter record is freed at one loop-free site guarded by export variant, indirect params and sync, that "
          "Malloc is only used for GuestExport lowering, and that the exit is dominated by the generator's own "
-         "stack-empty / realloc-cleared assertions. Whether the flat/indirect decision is right for a signature is "
+         "stack-empty / realloc-cleared assertions; on the syntax tree: the capacity of the flat buffer (R2.7), which core "
+         "argument carries the return pointer / parameter record / flat values (R2.8), and that task.return of an async "
+         "export receives flat_types(result, max_flat_params) decided by the result type alone, one pointer exactly when "
+         "that overflowed (R2.9). Whether the flat/indirect decision is right for a signature is "
          "wit-parser's `wasm_signature` (trusted).",
     note="mir")
 
@@ -317,3 +321,58 @@ def run(rep, tier):
                 ok = True
         rep.ob("R2.8", "lifting: flat parameters are GetArg 0, 1, 2, ... (counter from 0, +1 per flat value)", ok, "", fcall.loc())
     rep.guard("R2.8", "argument positions", r8)
+
+    # ---- R2.9 what task.return receives (lifting direction, async)
+    def r9():
+        fcall = synq.find_fn("crates/core/src/abi.rs", "call", self_ty="Generator")
+        render = synq.render
+        m0 = synq.find_match(fcall.body, "LiftLower::")
+        lift_arm = synq.arm_for(m0, "LiftLower::LiftArgsLowerResults")
+        # the flattening of an async result: every match whose arms produce the value later named in
+        # `AsyncTaskReturn { params }` -- located as the matches with an arm calling flat_types(.., Some(max_flat_params))
+        # on the function's result
+        cands = []
+        for mm in synq.matches_in(lift_arm.body):
+            arms_ = synq.arms(mm)
+            if any(h.startswith("Some") for a in arms_ for h in a.heads) and any(h == "None" for a in arms_ for h in a.heads) \
+                    and any(synq.fn_calls(a.body, "flat_types") for a in arms_) and "result" in render(mm["scrut"]):
+                cands.append((mm, arms_))
+        rep.floor("R2.9", "flattening of an async result for task.return", len(cands), 1)
+        rep.ob("R2.9", "one place flattens the async result for task.return", len(cands) == 1, f"{len(cands)}", fcall.loc())
+        if len(cands) != 1:
+            return
+        mm, arms_ = cands[0]
+        for a in arms_:
+            heads = ",".join(a.heads)
+            if a.guard is not None:
+                rep.ob("R2.9", f"async result flattening: arm `{heads}` is unconditional (the flat form of task.return depends on the "
+                       "result type alone)", False, f"guard `{render(a.guard)}`: with the guard true the result is passed by "
+                       "pointer although the canonical ABI flattens it (up to 16 values)", fcall.loc(a.node))
+                continue
+            body = a.body
+            while body.get("k") == "block" and len(body["stmts"]) == 1 and body["stmts"][0].get("k") == "expr_stmt":
+                body = body["stmts"][0]["e"]
+            if any(h.startswith("Some") for h in a.heads):
+                b = a.binds()
+                ok = body.get("k") == "call" and synq.short(body["func"].get("path", "")) == "flat_types" and len(body["args"]) == 3 \
+                    and len(b) == 1 and render(body["args"][1]).lstrip("&") == b[0] and render(body["args"][2]) == "Some(max_flat_params)"
+                rep.ob("R2.9", "async result flattening: a present result is flat_types(resolve, result, Some(max_flat_params))", ok,
+                       render(body)[:160], fcall.loc(a.node))
+            elif a.heads == ["None"]:
+                rep.ob("R2.9", "async result flattening: no result gives the empty flat list", render(body) in ("Some(Vec::new())", "Some(vec!())", "Some(vec![])"),
+                       render(body)[:120], fcall.loc(a.node))
+            else:
+                rep.ob("R2.9", f"async result flattening: arm `{heads}` is one of Some(ty) / None", False, "", fcall.loc(a.node))
+        # the memory fallback is chosen exactly when the flattening overflowed, and task.return then gets one pointer
+        tup = [n for n in synq.walk(lift_arm.body) if n.get("k") == "tuple" and len(n["elems"]) == 2 and
+               render(n["elems"][0]).endswith(".is_none()") and render(n["elems"][1]).startswith("Some(")]
+        ok = len(tup) == 1 and render(tup[0]["elems"][0])[:-len(".is_none()")] == render(tup[0]["elems"][1])[5:-1]
+        rep.ob("R2.9", "async: the result goes to memory exactly when its flattening overflowed (`results.is_none()`)", ok,
+               f"{[render(t) for t in tup]}", fcall.loc(tup[0]) if tup else fcall.loc())
+        ptr = [n for nm, n in synq.constructed(lift_arm.body, ["AsyncTaskReturn"])]
+        rep.floor("R2.9", "AsyncTaskReturn sites in the lifting direction", len(ptr), 3)
+        fallback = [c_ for c_ in synq.method_calls(lift_arm.body, "unwrap_or") if "as_deref" in render(c_["recv"])]
+        rep.ob("R2.9", "async export: an overflowed result is announced as exactly one pointer", len(fallback) == 1 and
+               render(fallback[0]["args"][0]).replace(" ", "") in ("&[WasmType::Pointer]",), f"{[render(c_) for c_ in fallback]}",
+               fcall.loc(fallback[0]) if fallback else fcall.loc())
+    rep.guard("R2.9", "task.return parameters", r9)
